@@ -393,6 +393,8 @@ func c19Child(specJSON string) {
 		case "first":
 			c19First(m, sp, r, out)
 			c19DeleteTogether(m, sp, r, out)
+		case "linlen":
+			c19LinLen(m, sp, rng, out)
 		}
 	}
 	js, _ := json.Marshal(out)
@@ -937,15 +939,133 @@ func runC19(c *Ctx) error {
 		}
 	}
 	for _, cf := range []cfg{{0, 16}, {0, 2}, {0, 1}, {1, 0}, {0, 64}} {
-		for _, sc := range []string{"lin", "len", "range"} {
+		for _, sc := range []string{"lin", "len", "range", "linlen"} {
 			if len(c.Sum.OracleFails) >= 6 {
 				break
 			}
 			sp := c19Spec{Scenario: sc, Kind: cf.kind, Req: cf.req, Seed: c.Seed*100 + c.Rng.Int63n(1<<30), Rounds: rounds, Ops: ops}
+			if sc == "linlen" {
+				// Len is one atomic step only where the whole storage is behind ONE lock (the default session storage, a
+				// ConcurrentMap of one shard); with several shards Len adds up shard sizes taken one after the other, and the
+				// statement only bounds it (scenario "len")
+				if !(cf.kind == 1 || cf.req == 1) {
+					continue
+				}
+				sp.Rounds = 1 // one storage; its Ops are short histories checked one by one
+			}
 			if err := c19RunChild(c, sp); err != nil {
 				return err
 			}
 		}
 	}
 	return nil
+}
+
+// c19LinLen: Len as part of the linearizability check, for storages behind one lock.  Many SHORT histories on two keys - three goroutines, a handful of
+// Store / Delete / Len calls each, several goroutines on the same key - checked against ONE map {present keys}: a Len
+// that reflects the operations in another order than the map saw them (an element count kept beside the map) has no
+// linearization.
+func c19LinLen(m c19Map, sp c19Spec, rng *rand.Rand, out *c19ChildOut) {
+	const G, K, N = 3, 2, 5
+	keys := c19Keys(K)
+	type lop struct {
+		G, Key    int
+		Kind      string
+		Len       int
+		Call, Ret int64
+	}
+	model := porcupine.Model{
+		Init: func() interface{} { return 0 },
+		Step: func(state, input, output interface{}) (bool, interface{}) {
+			s, o := state.(int), input.(lop)
+			switch o.Kind {
+			case "store":
+				return true, s | 1<<uint(o.Key)
+			case "delete":
+				return true, s &^ (1 << uint(o.Key))
+			default:
+				n := 0
+				for b := 0; b < K; b++ {
+					n += s >> uint(b) & 1
+				}
+				return o.Len == n, s
+			}
+		},
+		Equal: func(a, b interface{}) bool { return a.(int) == b.(int) },
+	}
+	histories := sp.Ops * 4
+	for h := 0; h < histories && len(out.Fails) == 0; h++ {
+		for _, k := range keys {
+			m.Delete(k)
+		}
+		var clock atomic.Int64
+		hist := make([][]lop, G)
+		var wg sync.WaitGroup
+		var ready sync.WaitGroup
+		ready.Add(G)
+		var goFlag int32
+		seeds := make([]int64, G)
+		for g := range seeds {
+			seeds[g] = rng.Int63()
+		}
+		for g := 0; g < G; g++ {
+			wg.Add(1)
+			go func(g int) {
+				defer wg.Done()
+				r := rand.New(rand.NewSource(seeds[g]))
+				ready.Done()
+				for atomic.LoadInt32(&goFlag) == 0 {
+				}
+				for i := 0; i < N; i++ {
+					o := lop{G: g, Key: r.Intn(K)}
+					switch p := r.Intn(10); {
+					case p < 4:
+						o.Kind = "store"
+						o.Call = clock.Add(1)
+						m.Store(keys[o.Key], g*100+i+1)
+						o.Ret = clock.Add(1)
+					case p < 7:
+						o.Kind = "delete"
+						o.Call = clock.Add(1)
+						m.Delete(keys[o.Key])
+						o.Ret = clock.Add(1)
+					default:
+						o.Kind = "len"
+						o.Call = clock.Add(1)
+						o.Len = m.Len()
+						o.Ret = clock.Add(1)
+					}
+					hist[g] = append(hist[g], o)
+				}
+			}(g)
+		}
+		ready.Wait()
+		atomic.StoreInt32(&goFlag, 1)
+		wg.Wait()
+		var ph []porcupine.Operation
+		var flat []lop
+		for g := 0; g < G; g++ {
+			for _, o := range hist[g] {
+				ph = append(ph, porcupine.Operation{ClientId: g, Input: o, Output: o, Call: o.Call, Return: o.Ret})
+				flat = append(flat, o)
+			}
+		}
+		out.Stats["linlen-histories"]++
+		if porcupine.CheckOperationsTimeout(model, ph, 10*time.Second) == porcupine.Illegal {
+			sort.Slice(flat, func(i, j int) bool { return flat[i].Call < flat[j].Call })
+			var lines []string
+			for _, o := range flat {
+				switch o.Kind {
+				case "len":
+					lines = append(lines, fmt.Sprintf("g%d Len()=%d [%d,%d]", o.G, o.Len, o.Call, o.Ret))
+				default:
+					lines = append(lines, fmt.Sprintf("g%d %s(key-%d) [%d,%d]", o.G, o.Kind, o.Key, o.Call, o.Ret))
+				}
+			}
+			out.Fails = append(out.Fails, c19Fail{
+				What:   fmt.Sprintf("%s: a history of %d Store/Delete/Len calls by %d goroutines on %d keys has no linearization as one map (call and return times in brackets): %s", c19Name(sp.Kind, sp.Req), len(flat), G, K, strings.Join(lines, "; ")),
+				Sig:    "conc-not-linearizable",
+				Replay: map[string]any{"spec": sp, "history": lines}})
+		}
+	}
 }
